@@ -85,7 +85,7 @@ Module RcbC.
                (tol_test tol) (v_by_coord rcb_variant) (v_probe_max rcb_variant) f32v
                flt_irrefl flt_negtrans fle_flt good rank rlo rhi Hmid Hmono Hbnd); auto.
       - rewrite Forall_forall. intros it Hit.
-        assert (Hc : In (co it) (to32 pts)) by (rewrite <- (mk_items_co pts ws 0%nat Hlen); apply in_map, Hit).
+        assert (Hc : In (co it) (to32 pts)) by (rewrite <- (mk_items_co pts ws 0%N Hlen); apply in_map, Hit).
         split.
         + unfold to32 in Hc. apply in_map_iff in Hc as (pt & <- & Hpt). rewrite map_length.
           rewrite Forall_forall in Hshape. exact (Hshape pt Hpt).
